@@ -19,18 +19,16 @@ RULE = ("cases = seeded random circuits over the invertible gate set with hostil
 ASSUMPTIONS = ["vlib.refsim unitaries (<= 6 qubits) are the oracle; phase alignment by the overlap tr(U^dag V)",
                "dropped-rotation bound: threshold x number of removed gates (as stated in the property)"]
 ANCHORS = [
-    ("tangelo/linq/gate.py", "148-188", "gate inverse rules and equality"),
-    ("tangelo/linq/circuit.py", "349-358", "circuit inverse"),
+    ("tangelo/linq/gate.py", "__eq__,inverse", "gate inverse rules and equality"),
+    ("tangelo/linq/circuit.py", "inverse", "circuit inverse"),
     ("tangelo/linq/circuit.py", "remove_small_rotations", "small-rotation removal"),
     ("tangelo/linq/circuit.py", "merge_rotations", "rotation merging"),
     ("tangelo/linq/circuit.py", "remove_redundant_gates", "redundant gate cancellation"),
     ("tangelo/linq/circuit.py", "simplify", "fixed-point iteration of the passes"),
     ("tangelo/linq/circuit.py", "trim_qubits,reindex_qubits,get_entangled_indices,split,stack", "split / trim / reindex / stack"),
-    ("tangelo/linq/helpers/circuits/clifford_circuits.py", "20-89", "Clifford decomposition tables"),
+    ("tangelo/linq/helpers/circuits/clifford_circuits.py", "decompose_gate_to_cliffords", "Clifford decomposition tables"),
 ]
-REQUIRED = {"inverse": 100, "merge_rotations": 100, "remove_redundant_gates": 100, "remove_small_rotations": 100,
-            "simplify": 100, "split_stack": 50, "trim_qubits": 50, "reindex_qubits": 50, "copy_add_mul": 100,
-            "gate_equality": 200, "clifford_decomposition": 100, "input_unchanged": 300}
+REQUIRED = {"inverse": 100, "merge_rotations": 100, "remove_redundant_gates": 100, "remove_small_rotations": 100, "simplify": 100, "split_stack": 50, "trim_qubits": 50, "reindex_qubits": 25, "copy_add_mul": 100, "gate_equality": 200, "clifford_decomposition": 100, "input_unchanged": 300}
 BUDGET = {"quick": 240, "thorough": 2400}
 TOL = 1e-9
 
